@@ -2,10 +2,16 @@ package props
 
 import (
 	"bytes"
+	"context"
 	"fmt"
 
+	dproto "github.com/cloudwego/dynamicgo/proto"
+	pg "github.com/cloudwego/dynamicgo/proto/generic"
 	"github.com/cloudwego/dynamicgo/thrift"
 	"github.com/cloudwego/dynamicgo/thrift/generic"
+	"google.golang.org/protobuf/proto"
+	"google.golang.org/protobuf/reflect/protoreflect"
+	"google.golang.org/protobuf/types/dynamicpb"
 
 	"verifharness/gen"
 	"verifharness/h"
@@ -13,6 +19,38 @@ import (
 )
 
 func init() { h.Register("C11", runC11) }
+
+// pClearFields removes, at every nesting level, the fields named in skip.
+func pClearFields(m protoreflect.Message, skip map[protoreflect.FullName]bool) {
+	var clear []protoreflect.FieldDescriptor
+	m.Range(func(fd protoreflect.FieldDescriptor, v protoreflect.Value) bool {
+		if skip[fd.FullName()] {
+			clear = append(clear, fd)
+			return true
+		}
+		switch {
+		case fd.IsMap():
+			if fd.MapValue().Kind() == protoreflect.MessageKind {
+				v.Map().Range(func(k protoreflect.MapKey, mv protoreflect.Value) bool {
+					pClearFields(mv.Message(), skip)
+					return true
+				})
+			}
+		case fd.IsList():
+			if fd.Kind() == protoreflect.MessageKind {
+				for i := 0; i < v.List().Len(); i++ {
+					pClearFields(v.List().Get(i).Message(), skip)
+				}
+			}
+		case fd.Kind() == protoreflect.MessageKind:
+			pClearFields(v.Message(), skip)
+		}
+		return true
+	})
+	for _, fd := range clear {
+		m.Clear(fd)
+	}
+}
 
 // deriveTarget copies the struct graph below src, deleting and adding fields at every level.
 // With probability shareP a referenced struct is shared (same *StructT => same descriptor pointer).
@@ -338,5 +376,75 @@ func runC11(c *h.Ctx) {
 		if cs.I == 4 {
 			cs.Sample(map[string]interface{}{"idl": idl, "value": v.String(), "opts": fmt.Sprintf("%+v", o)})
 		}
+	})
+
+	// ---- Protobuf: projection by field number
+	c.Run("proto-cut", c.N(4000, 100000), func(cs *h.Case) {
+		sc := gen.GenPSchema(cs.R, gen.PCfg{MaxDepth: 2, MaxFields: 6, Nested: cs.R.Bool(), Enums: true, BigNums: cs.R.Chance(30)})
+		pc, err := PCompile(sc)
+		if err != nil {
+			cs.Cover("oracle_schema_rejected")
+			return
+		}
+		// source and target descriptors: two independent subsets of the same schema
+		identical := cs.R.Chance(15)
+		srcText, skipS := readerSchema(cs.R, sc)
+		tgtText, skipT := srcText, skipS
+		if !identical {
+			tgtText, skipT = readerSchema(cs.R, sc)
+		}
+		cs.Info("source-proto", srcText)
+		cs.Info("target-proto", tgtText)
+		ssvc, err := dproto.NewDescritorFromContent(context.Background(), "verif.proto", srcText, nil)
+		if err != nil {
+			cs.Viol("pcut:parse", "err", err)
+			return
+		}
+		tsvc, err := dproto.NewDescritorFromContent(context.Background(), "verif.proto", tgtText, nil)
+		if err != nil {
+			cs.Viol("pcut:parse", "err", err)
+			return
+		}
+		from, to := ssvc.LookupMethodByName("M").Input(), tsvc.LookupMethodByName("M").Input()
+		m := PGenMsg(cs.R, pc.Root, PValCfg{NonFinite: true, MaxElems: 4, MaxDepth: 3}, 0)
+		pClearFields(m, skipS) // a value described by the source descriptor
+		b := PMarshal(m)
+		want := proto.Clone(m).(*dynamicpb.Message)
+		pClearFields(want, skipT)
+		cs.Info("message", trunc(fmt.Sprint(m)))
+		cs.Info("bytes", hexs(b))
+		opts := &pg.Options{UseNativeSkip: cs.R.Bool(), DisallowUnknown: cs.R.Bool()}
+		tr := h.TrapCopy(b, cs.R.Bool(), true)
+		defer tr.Free()
+		out, err := pg.NewRootValue(from, tr.B).MarshalTo(to, opts)
+		kind := "pcut"
+		if identical {
+			kind = "pcut:identical"
+		}
+		if err != nil {
+			cs.Viol(kind+":unexpected-error", "err", err)
+			return
+		}
+		got := dynamicpb.NewMessage(pc.Root)
+		if uerr := PUnmarshal(out, got); uerr != nil {
+			cs.Viol(kind+":rejected-by-reference", "err", uerr, "out", out)
+			return
+		}
+		PNormEmpty(got)
+		wn := proto.Clone(want).(*dynamicpb.Message)
+		PNormEmpty(wn)
+		if !proto.Equal(got, wn) {
+			cs.Viol(kind+":projection", "got", trunc(fmt.Sprint(got)), "want", trunc(fmt.Sprint(want)), "out", out)
+			return
+		}
+		if identical && !bytes.Equal(out, b) {
+			cs.Viol(kind+":not-identical-bytes", "out", out)
+			return
+		}
+		cs.Cover("pcut_ok")
+		if identical {
+			cs.Cover("pcut_identical_ok")
+		}
+		cs.Distinct(fmt.Sprintf("pcut-%v-%d-%d-%s", identical, len(skipS), len(skipT), c20Shape(m)))
 	})
 }
